@@ -21,7 +21,7 @@ RULE = ("real KLM/POD readers on spec-written passes with 0-4 leading and 0-4 tr
         "compared with rows of a second reader's accessors, encoded independently. A case = (pass, request); non-trivial = all")
 ASSUME = ["h5py converts float64 to int16/int32 by truncation toward zero for in-range values",
           "the Coq comparison of the integer encoding allows +-1 (float product vs exact rational); the Python oracle is exact"]
-TB = ["coqc 8.16.1 kernel; vm_compute decides the generated call tables", "translator/gen.py (Gen_SaveGac: AST of save_gac, avhrrGAC_io, Reader.save)",
+TB = ["coqc 8.16.1 kernel; vm_compute decides the generated call tables", "translator/gen.py (Gen_SaveGac: call tables obtained by tracing Reader.save, save_gac, slice_channel and the HDF5 writer on tagged inputs)",
       "correspondence check_save / check_encode evaluated in Coq", "h5py read-back"]
 
 
